@@ -350,6 +350,9 @@ fn run_all(rep: &mut Report, tier: Tier) {
         }
         rep.set("exec_cases", json!(hows.len()));
     }
+    // a sender process that dies mid-message: 'disconnected' exactly when no sender survives
+    // (C12's crash machinery with the direct receive variants as observers)
+    n += super::c12::run_for(rep, &[super::c12::Watch::Blocking, super::c12::Watch::Try, super::c12::Watch::Timed], "sender crash seen through recv / try_recv / try_recv_timeout");
     rep.set("model_graphs", json!(bounds));
     rep.set("model_states", json!(states));
     rep.set("model_transitions", json!(transitions));
@@ -381,6 +384,9 @@ fn run_all(rep: &mut Report, tier: Tier) {
 
 pub fn replay(tier: Tier, v: &Value) -> i32 {
     let v = if v.get("variant").is_some() { &v["case"] } else { v };
+    if v["engine"] == "crash-case" {
+        return super::c12::replay(&v["case"]);
+    }
     if v["engine"] == "exec-case" {
         let how = v["how"].as_u64().unwrap_or(0) as u8;
         for r in 0..2 {
